@@ -36,8 +36,31 @@ for i, op in enumerate(ops):
     r = rfharness.py_issue(w, cfg, op, op.get("cid", i))
     out("END %d %d %d |\n" % (i + 1, 0 if r[0] == "ok" else -1, r[1] if r[0] == "ok" else 0))
 out("BEGIN %d close\n" % (len(ops) + 1))
+end = os.environ.get("PYW_END", "close")
+
+
+class _AppError(Exception):
+    pass
+
+
 try:
-    w.close()
+    if end == "with":
+        with w:
+            pass
+    elif end == "withexc":
+        # the recording's with block is left by an exception of the application: what reaches the caller?
+        try:
+            with w:
+                raise _AppError("stop recording")
+        except _AppError:
+            pass  # only the application's exception came out: the writer reported nothing
+    else:
+        w.close()
     out("END %d 0 0 |\n" % (len(ops) + 1))
 except Exception:
     out("END %d -1 0 |\n" % (len(ops) + 1))
+# the writer is closed but the process (and the `w` variable) lives on: one more observable point for a reader
+try:
+    open(os.path.join(chdir, ".verif-after-close"), "rb").close()
+except OSError:
+    pass
